@@ -45,6 +45,7 @@ type condVec struct {
 	Err     string `json:"err"`
 	Prior   string `json:"prior"`
 	XRReady string `json:"xrReady"`
+	Checks  string `json:"checks"`
 }
 
 // condScript is what the scripted function returns in a conditions run.
@@ -161,14 +162,22 @@ func runCondXR(tw *trace.Writer, id string, raw json.RawMessage, v *condVec) {
 		w.s.Mutate(revKey, func(u *unstructured.Unstructured) {
 			res := []any{}
 			for _, n := range w.names {
-				res = append(res, map[string]any{
+				t := map[string]any{
 					"name": n,
 					"base": map[string]any{"apiVersion": "ex.org/v1", "kind": "Thing", "spec": map[string]any{"param": n}},
 					"patches": []any{
 						map[string]any{"type": "FromCompositeFieldPath", "fromFieldPath": "spec.req" + n, "toFieldPath": "spec.req", "policy": map[string]any{"fromFieldPath": "Required"}},
 						map[string]any{"type": "FromCompositeFieldPath", "fromFieldPath": "spec.poison" + n, "toFieldPath": "spec.poison"},
 					},
-				})
+				}
+				if v.Checks != "" && v.Checks != "default" {
+					// two readiness checks: ready means both pass
+					t["readinessChecks"] = []any{
+						map[string]any{"type": "MatchString", "fieldPath": "status.state", "matchString": "available"},
+						map[string]any{"type": "MatchCondition", "matchCondition": map[string]any{"type": "Ready", "status": "True"}},
+					}
+				}
+				res = append(res, t)
 			}
 			_ = unstructured.SetNestedSlice(u.Object, res, "spec", "resources")
 		})
@@ -187,11 +196,14 @@ func runCondXR(tw *trace.Writer, id string, raw json.RawMessage, v *condVec) {
 	markReady := func(ready map[string]bool) {
 		for _, o := range w.s.All(cdGVK.GroupKind()) {
 			n := o.GetAnnotations()[annName]
-			st := "False"
+			st, state := "False", "available"
 			if ready[n] {
 				st = "True"
+			} else if v.Checks == "failfirst" {
+				st, state = "True", "creating" // only the first check fails
 			}
 			w.s.Mutate(simapi.KeyOf(o), func(u *unstructured.Unstructured) {
+				_ = unstructured.SetNestedField(u.Object, state, "status", "state")
 				_ = unstructured.SetNestedSlice(u.Object, []any{map[string]any{"type": "Ready", "status": st, "reason": "Available", "lastTransitionTime": "2024-01-01T00:00:00Z"}}, "status", "conditions")
 			})
 		}
